@@ -978,6 +978,18 @@ pub fn generate(ctx: &mut Ctx) {
         let f = nest(vec![vec![T::Has(vec!["a".into()]), T::Has(vec!["b".into(), "c".into()])]], levels);
         ctx.case("rt:nested", &format!("rt {}", show_f(&f)));
     }
+    // many closed groups side by side: the depth bookkeeping must come back after each one
+    for k in [2usize, 30, 64, 65, 66, 200] {
+        let g = || T::Par(vec![vec![T::Has(vec!["a".into()])]]);
+        let ands: F = vec![(0..k).map(|_| g()).collect()];
+        ctx.case("rt:siblings", &format!("rt {}", show_f(&ands)));
+        let ors: F = (0..k).map(|_| vec![g(), T::Has(vec!["b".into()])]).collect();
+        ctx.case("rt:siblings", &format!("rt {}", show_f(&ors)));
+        // each sibling itself two groups deep, the whole under 60 levels
+        let two = || T::Par(vec![vec![T::Par(vec![vec![T::Has(vec!["c".into()])]]), T::Has(vec!["d".into()])]]);
+        let inner: F = vec![(0..k.min(40)).map(|_| two()).collect()];
+        ctx.case("rt:siblings", &format!("rt {}", show_f(&nest(inner, 60))));
+    }
     // random well-formed trees: round trip, visitor, spelling
     let n = ctx.n(2500, 300_000);
     for _ in 0..n {
